@@ -7,8 +7,11 @@ Reference calendar of the oracle: Python's `datetime.date` (toordinal / fromordi
 Case kinds (see RULE for pools and counts):
   ymd, hms, iso, serial, shorty, pair, wtype, edate   model comparison + oracle; a seeded sample of them is repeated with a
                                                        'tz' key = the process time zone during the implementation call (TZS)
-                                                       (an iso case with an 'off' key - the text carries a UTC offset - is
-                                                       oracle only: request -> None)
+                                                       (an iso case with an 'off' key - the text carries a UTC offset -,
+                                                       with a 'frac' key - a fraction of a second is written after the
+                                                       seconds - or with a 'us' key - the argument is a host datetime
+                                                       carrying that many microseconds, not text - is oracle only:
+                                                       request -> None)
   misc, formula                                        model comparison only (type juggling, wrong arity, end-to-end formulas)
   sw_dates, sw_serial, sw_pairs, sw_edate              sharded direct-call sweeps, oracle only (request -> None)
   sw_model (thorough)                                  the Lean model's calendar against datetime on every day 1900..9999
@@ -29,7 +32,7 @@ FUNCTIONS = [_DT + n for n in ('DATE', 'TIME', 'DATEVALUE', 'TIMEVALUE', 'YEAR',
              'hotxlfp.formulas.utils:any_is_error', 'hotxlfp.formulas.utils:epoch_seconds', 'hotxlfp.helper.number:to_number']
 RULE = ('quick ~32 500 cases (~118 000 at scale 5), thorough ~320 000; counts below: quick, thorough in brackets; seeded '
         'counts x scale (5 in quick when a modelled function changed or the Lean build broke); duplicates dropped. every case '
-        'but the sw_* shards and the iso texts with a UTC offset is compared with the Lean model (ints, text, errors exact; floats within 4 ulp or 1e-9 relative; '
+        'but the sw_* shards and the iso cases with a UTC offset, a fraction of a second or microseconds is compared with the Lean model (ints, text, errors exact; floats within 4 ulp or 1e-9 relative; '
         'date-times within 2 us + 2^-49 relative; a model answer `(o ..)` = no opinion, not compared); (a)-(h) and the sweeps '
         'are also judged by the oracle (datetime, exact ints). seeded date = uniform day of 1900-01-01..9999-12-31. (a) ymd: '
         'YEAR/MONTH/DAY/WEEKDAY(type absent,1,2,3) of DATE(y,m,d) on every day of 1900, 1904, 2000, 2100, 2400, 9999; the '
@@ -45,7 +48,12 @@ RULE = ('quick ~32 500 cases (~118 000 at scale 5), thorough ~320 000; counts be
         '00:00:01}; every second one of the T forms (T + HH:MM:SS, T + HH:MM) with a year in 1901..9998 is given once more with '
         'a UTC offset appended to the text (key off: one of Z, +00:00, +05:00, -05:00, +09:30, -11:00, +14:00, -00:30; about 100 '
         '(1200) cases), oracle only: the six components read must be the ones written (a time of day in its own zone, no shift '
-        'to UTC or to the local zone) and WEEKDAY of the text under the types 1, 2, 3 that of the written date. (d) serial: YEAR/MONTH/DAY of whole-day serials 61..2958465 = ymd of 1899-12-30 + serial days: 15 fixed '
+        'to UTC or to the local zone) and WEEKDAY of the text under the types 1, 2, 3 that of the written date; every third date whose form is one of the two '
+        'with seconds (T or a blank + HH:MM:SS; 2 of every 15 dates) and whose year is in 1901..9998 is given once more with a '
+        'fraction of a second, seeded from .5 .750 .600 .999 .999999 .499 .001 .500000, half of the time written after the '
+        'seconds of the text (key frac; before the offset, which these cases do not have), else as a datetime object with that many '
+        'microseconds handed to the six functions instead of text (key us); about 70 (810) cases, oracle only: the six '
+        'components must be the ones written - the second is not rounded up, 23:59:59.999999 stays second 59 of the same day. (d) serial: YEAR/MONTH/DAY of whole-day serials 61..2958465 = ymd of 1899-12-30 + serial days: 15 fixed '
         '(61..63, 366/367, 1 Jan, 29 Feb, 1 Mar 2000, 1 Jan, 28 Feb, 1 Mar 2100, 2958100/01, 2958464/65), the month ends of '
         '1900, 2000, 2100, 9999 and 40 (400) seeded years, 1200 (20000) seeded. (e) shorty: DATE(y,m,d) for 0 <= y < 1900 = '
         'DATE(1900+y,m,d) = datetime(1900+y,m,d): y in {0, 1, 99, 100, 119, 120, 500, 1000, 1898, 1899} x {1 Jan, 28 Feb, 29 '
@@ -92,7 +100,9 @@ TRUSTED = ['Python\'s datetime.date / calendar.monthrange as the reference prole
            'Lean transcription of _ymd2ord/_ord2ymd is proved lawful for all years and compared with datetime on every day '
            '1900..9999 by sw_model in the thorough tier)',
            'dateutil.parser.parse on text other than ISO-8601 YYYY-MM-DD[(T| )HH:MM[:SS]] is library behaviour (not modelled); '
-           'that includes the same text followed by a UTC offset (Z, +hh:mm, -hh:mm): those iso cases are judged by the oracle only',
+           'that includes the same text followed by a UTC offset (Z, +hh:mm, -hh:mm) or with a fraction written after the seconds '
+           '(.5 .. .999999): those iso cases, and the ones that hand over a datetime with microseconds, are judged by the oracle only '
+           '(the model is not asked: request -> None)',
            'float arithmetic of serialize_date / epoch_seconds on date-times with a non-dyadic time of day (model: exact '
            'rationals): the model comparison accepts floats within 4 ulp or 1e-9 relative and date-times within 2 microseconds '
            '+ 2^-49 of the microsecond count since 1900-01-01; the oracle compares exactly',
@@ -118,7 +128,9 @@ ASSUMPTIONS = ['"calendar difference in days" (DAYS, DATEDIF unit d) is read on 
                'the start\'s; whole years less 1 when the end\'s (month, day) is smaller; ym = whole months mod 12',
                'ISO text means zero-padded YYYY-MM-DD optionally followed by T or a blank and HH:MM[:SS]; absent time parts '
                'read 0; a UTC offset after the time (Z, +hh:mm, -hh:mm) does not move the reading: year .. second are the ones '
-               'written and WEEKDAY is the weekday of the written date',
+               'written and WEEKDAY is the weekday of the written date; a fraction of a second - written after the seconds of the '
+               'text or carried as microseconds by a date-time the host hands over - is dropped, not rounded: SECOND is the '
+               'written second and no component carries over',
                'DATEDIF units md, yd and EDATE\'s default-date branch (blank start date) are outside the statement: model '
                'comparison only',
                'DATEDIF of two equal dates is 0 (d, m, y, ym all agree with that)',
